@@ -230,13 +230,13 @@ fn directed(ctx: &mut Ctx, which: usize) -> Option<Scn> {
     let gj = |e: u64, v: &str| good_json(dm, Some(e), v);
     let d = BASE;
     Some(match which {
-        // K1: key 2 may write E1 rows in room 2 only; the source row lives in room 1 (author 1)
+        // repaired by a9c9d9e (was class 1, add side): key 2 may write E1 rows in room 2 only; the source row lives in room 1 (author 1); must be refused
         0 => {
             let defs = vec![(1, simple_room(&[(1, 0, true, true)])), (2, simple_room(&[(2, 1, true, false)]))];
             let p = ctx.node(100, Some(1), Some(1), gj(1, "p"), d, 1, Tamper::No);
             let q = ctx.node(101, Some(1), Some(2), gj(2, "q"), d, 1, Tamper::No);
             let e = ctx.edge(100, Some(1), 1, 101, d + 10, 2, Tamper::No);
-            Scn { defs, pre_nodes: vec![p, q], pre_edges: vec![], steps: vec![Step::Edges(2, vec![e])], what: "K1 edge whose source row lives in another room".into() }
+            Scn { defs, pre_nodes: vec![p, q], pre_edges: vec![], steps: vec![Step::Edges(2, vec![e])], what: "repaired: edge whose source row lives in another room is refused".into() }
         }
         // K1 (tombstone side): key 2 (room 2, all-rows right on E1) deletes a reference of a row of room 1
         1 => {
@@ -247,12 +247,12 @@ fn directed(ctx: &mut Ctx, which: usize) -> Option<Scn> {
             let t = ctx.edel(2, &e, d + 10, 2, Tamper::No);
             Scn { defs, pre_nodes: vec![p, q], pre_edges: vec![e], steps: vec![Step::EDels(vec![t])], what: "K1 edge tombstone of room 2 removes a reference of a row of room 1".into() }
         }
-        // K2: key 2 has the all-rows right on E2 only; its tombstone claims entity E2 for an E1 row of author 1
+        // repaired by 8ef09c7 (was class 2): key 2 has the all-rows right on E2 only; its tombstone claims entity E2 for an E1 row of author 1; must be ignored
         2 => {
             let defs = vec![(1, simple_room(&[(1, 1, true, true), (2, 2, true, true)]))];
             let p = ctx.node(100, Some(1), Some(1), gj(1, "p"), d, 1, Tamper::No);
             let t = ctx.ndel(1, 100, Some(2), d, d + 10, 2, Tamper::No);
-            Scn { defs, pre_nodes: vec![p], pre_edges: vec![], steps: vec![Step::NDels(vec![t])], what: "K2 tombstone claiming another entity".into() }
+            Scn { defs, pre_nodes: vec![p], pre_edges: vec![], steps: vec![Step::NDels(vec![t])], what: "repaired: tombstone claiming another entity is ignored".into() }
         }
         // K3: key 2 has the all-rows right on E2 only and replaces an E1 row of author 1 by an E2 row
         3 => {
@@ -270,11 +270,11 @@ fn directed(ctx: &mut Ctx, which: usize) -> Option<Scn> {
             let e2 = ctx.edge(100, Some(1), 1, 101, d + 10, 2, Tamper::No);
             Scn { defs, pre_nodes: vec![p, q], pre_edges: vec![e], steps: vec![Step::Edges(1, vec![e2])], what: "K4 another author's reference replaced with the own-rows right".into() }
         }
-        // K5: a row without JSON content for an entity with a required field
+        // repaired by 95fc165 (was class 5): a row without JSON content for an entity with a required field; must be refused
         5 => {
             let defs = vec![(1, simple_room(&[(1, 1, true, false)]))];
             let x = ctx.node(100, Some(1), Some(1), None, d, 1, Tamper::No);
-            Scn { defs, pre_nodes: vec![], pre_edges: vec![], steps: vec![Step::Nodes(1, vec![x])], what: "K5 row without JSON content".into() }
+            Scn { defs, pre_nodes: vec![], pre_edges: vec![], steps: vec![Step::Nodes(1, vec![x])], what: "repaired: row without JSON content is refused".into() }
         }
         // honest synchronisation of a day: tombstones, rows, references; everything is stored
         6 => {
@@ -353,6 +353,25 @@ fn directed(ctx: &mut Ctx, which: usize) -> Option<Scn> {
             Scn { defs, pre_nodes: vec![p, q, z.clone()], pre_edges: vec![], steps: vec![
                 Step::Nodes(1, vec![older]), Step::Nodes(1, vec![same, z]), Step::Nodes(1, vec![sib1]), Step::Nodes(1, vec![sib2]),
                 Step::NDels(vec![t_unknown_ent, t_unknown_room, t_other, t_absent]), Step::NDels(vec![t_b, t_a])], what: "lww filter and tombstone corner cases".into() }
+        }
+        // several tombstones of one row in one answer (bb1bffb: one at a time), a tombstone older than the stored
+        // version (ad91329: removes nothing), versions covered by a stored tombstone are not requested again (ca69f52)
+        10 => {
+            let defs = vec![(1, simple_room(&[(1, 0, true, true), (2, 0, true, false)]))];
+            let p = ctx.node(100, Some(1), Some(1), gj(1, "p"), d + 5, 1, Tamper::No);
+            let q = ctx.node(101, Some(1), Some(1), gj(1, "q"), d + 5, 2, Tamper::No);
+            let w = ctx.node(102, Some(1), Some(1), gj(1, "w"), d + 9, 2, Tamper::No);
+            let t1 = ctx.ndel(1, 100, Some(1), d + 5, d + 6, 2, Tamper::No);    // own-rows right only, row of key 1: refused
+            let t2 = ctx.ndel(1, 101, Some(1), d + 5, d + 6, 2, Tamper::No);    // own row: stored
+            let t3 = ctx.ndel(1, 100, Some(1), d + 5, d + 7, 1, Tamper::No);    // second entry of row 100: stored, removes it
+            let t4 = ctx.ndel(1, 100, Some(1), d + 5, d + 8, 2, Tamper::No);    // third entry: the row is gone, own-rows right suffices
+            let t5 = ctx.ndel(1, 102, Some(1), d + 8, d + 10, 2, Tamper::No);   // names an older version than the stored one: stored, removes nothing
+            let p_again = p.clone();
+            let p_newer = ctx.node(100, Some(1), Some(1), gj(1, "p2"), d + 6, 1, Tamper::No);
+            let w_older = ctx.node(102, Some(1), Some(1), gj(1, "w0"), d + 8, 2, Tamper::No);
+            Scn { defs, pre_nodes: vec![p, q, w], pre_edges: vec![], steps: vec![
+                Step::NDels(vec![t1, t2, t3, t4, t5]), Step::Nodes(1, vec![p_again]), Step::Nodes(1, vec![w_older, p_newer])],
+                what: "several tombstones per row, older tombstone, tombstoned versions".into() }
         }
         _ => return None,
     })
